@@ -371,6 +371,224 @@ theorem grid_distance_exact (t : OctaT) (hwf : t.WF) (n1 n2 n3 : ℚ) (hn : 0 < 
   exact grid_distance t r.1 r.2.1 A B Z r.2.2
     (by rw [hr]; exact abs_sub_floor_half A) (by rw [hr]; exact abs_sub_floor_half B) hsum hz
 
+
+/-! ### the decoder in exact arithmetic: fixed point -/
+
+/-- `c ·` the vector computed by `OctahedralCoordsToUnitVector` before normalisation, in exact
+    arithmetic, from center-relative coordinates `a = s - c`, `b = t - c` -/
+def decScaled (c a b : Int) : Int × Int × Int :=
+  let x := c - iabs a - iabs b
+  let xOff := if -x < 0 then 0 else -x
+  (x, a + (if a < 0 then xOff else -xOff), b + (if b < 0 then xOff else -xOff))
+
+theorem decScaled_canonicalize (t : OctaT) (hwf : t.WF) (p : Int × Int) (hg : inGrid t p) :
+    decScaled t.center ((canonicalize t p).1 - t.center) ((canonicalize t p).2 - t.center)
+      = decScaled t.center (p.1 - t.center) (p.2 - t.center) := by
+  obtain ⟨h1, h2, h3, h4⟩ := hwf
+  obtain ⟨s, u⟩ := p
+  unfold inGrid at hg
+  unfold canonicalize
+  simp only at hg ⊢
+  rw [h1] at hg ⊢
+  generalize t.center = c at *
+  split
+  · rename_i h
+    unfold decScaled iabs
+    rcases h with ⟨rfl, rfl⟩ | ⟨rfl, rfl⟩ | ⟨rfl, rfl⟩ <;>
+      simp only [Prod.mk.injEq] <;> (repeat' split) <;> omega
+  · split
+    · rename_i h; obtain ⟨rfl, h⟩ := h
+      unfold decScaled iabs
+      simp only [Prod.mk.injEq]; (repeat' split) <;> omega
+    · split
+      · rename_i h; obtain ⟨rfl, h⟩ := h
+        unfold decScaled iabs
+        simp only [Prod.mk.injEq]; (repeat' split) <;> omega
+      · split
+        · rename_i h; obtain ⟨rfl, h⟩ := h
+          unfold decScaled iabs
+          simp only [Prod.mk.injEq]; (repeat' split) <;> omega
+        · split
+          · rename_i h; obtain ⟨rfl, h⟩ := h
+            unfold decScaled iabs
+            simp only [Prod.mk.injEq]; (repeat' split) <;> omega
+          · rfl
+
+/-- the coordinates before `CanonicalizeOctahedralCoords` decode to the vector itself -/
+theorem decScaled_pre (c x y z : Int) (hsum : iabs x + iabs y + iabs z = c) :
+    (0 ≤ x → decScaled c y z = (x, y, z)) ∧
+    (x < 0 → decScaled c ((if y < 0 then iabs z else 2 * c - iabs z) - c)
+        ((if z < 0 then iabs y else 2 * c - iabs y) - c) = (x, y, z)) := by
+  unfold decScaled iabs at *
+  constructor
+  · intro hx
+    simp only [Prod.mk.injEq]
+    (repeat' split at hsum) <;> (repeat' split) <;> omega
+  · intro hx
+    simp only [Prod.mk.injEq]
+    (repeat' split at hsum) <;> (repeat' split) <;> omega
+
+/-- **fixed point**: decoding (exact arithmetic, before normalisation) the octahedral
+    coordinates of an integer vector of L1 norm `c` gives the vector back (times `1/c`) -/
+theorem decScaled_intVecToCoords (t : OctaT) (hwf : t.WF) (v : Int × Int × Int)
+    (hsum : iabs v.1 + iabs v.2.1 + iabs v.2.2 = t.center) :
+    decScaled t.center ((intVecToCoords t v).1 - t.center) ((intVecToCoords t v).2 - t.center)
+      = v := by
+  obtain ⟨x, y, z⟩ := v
+  simp only at hsum
+  obtain ⟨p0, p1⟩ := decScaled_pre t.center x y z hsum
+  have hV := hwf.1
+  have hy := iabs_nonneg y
+  have hz := iabs_nonneg z
+  have hxn := iabs_nonneg x
+  unfold intVecToCoords
+  simp only
+  by_cases hx : x ≥ 0
+  · simp only [hx, if_true]
+    rw [decScaled_canonicalize t hwf _ (by
+      unfold inGrid; simp only; rw [hV]
+      unfold iabs at hsum
+      (repeat' split at hsum) <;> omega)]
+    simp only [Int.add_sub_cancel]
+    exact p0 hx
+  · simp only [hx, if_false]
+    rw [decScaled_canonicalize t hwf _ (by
+      unfold inGrid; simp only; rw [hV]
+      constructor
+      · split <;> omega
+      constructor
+      · split <;> omega
+      constructor
+      · split <;> omega
+      · split <;> omega)]
+    simp only
+    rw [hV]
+    exact p1 (by omega)
+
+
+/-- the `float` operations of `QuantizedOctahedralCoordsToUnitVector` before the normalisation -/
+class OctaDecOps (F : Type) where
+  add : F → F → F
+  sub : F → F → F
+  mul : F → F → F
+  div : F → F → F
+  abs : F → F
+  neg : F → F
+  ofInt : Int → F
+  lt : F → F → Bool
+  zero : F
+  one : F
+  two : F
+
+instance instOctaDecOpsFloat32 : OctaDecOps Float32 where
+  add := fun a b => a + b
+  sub := fun a b => a - b
+  mul := fun a b => a * b
+  div := fun a b => a / b
+  abs := fun a => a.abs
+  neg := fun a => -a
+  ofInt := fun k => Float32.ofInt k
+  lt := fun a b => decide (a < b)
+  zero := (0 : Float32)
+  one := (1.0 : Float32)
+  two := (2.0 : Float32)
+
+@[reducible] def exactOctaDecOps : OctaDecOps ℚ where
+  add := fun a b => a + b
+  sub := fun a b => a - b
+  mul := fun a b => a * b
+  div := fun a b => a / b
+  abs := fun a => |a|
+  neg := fun a => -a
+  ofInt := fun k => (k : ℚ)
+  lt := fun a b => decide (a < b)
+  zero := 0
+  one := 1
+  two := 2
+
+open OctaDecOps in
+/-- `QuantizedOctahedralCoordsToUnitVector` / `OctahedralCoordsToUnitVector` up to (excluding)
+    the normalisation, generically over the operations -/
+def octaVecG {F : Type} [OctaDecOps F] (maxV : Int) (p : Int × Int) : F × F × F :=
+  let sc : F := div two (ofInt maxV)
+  let y : F := sub (mul (ofInt p.1) sc) one
+  let z : F := sub (mul (ofInt p.2) sc) one
+  let x : F := sub (sub one (abs y)) (abs z)
+  let xOff : F := neg x
+  let xOff : F := if lt xOff zero then zero else xOff
+  let y : F := add y (if lt y zero then xOff else neg xOff)
+  let z : F := add z (if lt z zero then xOff else neg xOff)
+  (x, y, z)
+
+/-- the normalisation step of `OctahedralCoordsToUnitVector` (`float`, comparison in `double`) -/
+def normalise32 (w : Float32 × Float32 × Float32) : Float32 × Float32 × Float32 :=
+  let n2 : Float32 := w.1 * w.1 + w.2.1 * w.2.1 + w.2.2 * w.2.2
+  if n2.toFloat < 1e-6 then (0, 0, 0)
+  else
+    let d : Float32 := 1.0 / n2.sqrt
+    (w.1 * d, w.2.1 * d, w.2.2 * d)
+
+/-- the executable decoder of the model is the `Float32` instance of `octaVecG` followed by the
+    normalisation -/
+theorem coordsToUnitVector_eq_generic (t : OctaT) (p : Int × Int) :
+    coordsToUnitVector t p = normalise32 (@octaVecG Float32 instOctaDecOpsFloat32 t.maxV p) := by
+  unfold coordsToUnitVector scaledCoordsToUnitVector normalise32 octaVecG dequantScale
+  simp only [OctaDecOps.add, OctaDecOps.sub, OctaDecOps.mul, OctaDecOps.div, OctaDecOps.abs,
+    OctaDecOps.neg, OctaDecOps.ofInt, OctaDecOps.lt, OctaDecOps.zero, OctaDecOps.one,
+    OctaDecOps.two, decide_eq_true_eq]
+
+/-- Exact arithmetic: the decoder applied to the octahedral coordinates of an integer vector `v`
+    of L1 norm `c` returns `v / c` (before normalisation). -/
+theorem octaVecG_exact_fixed_point (t : OctaT) (hwf : t.WF) (v : Int × Int × Int)
+    (hsum : iabs v.1 + iabs v.2.1 + iabs v.2.2 = t.center) :
+    @octaVecG ℚ exactOctaDecOps t.maxV (intVecToCoords t v)
+      = ((v.1 : ℚ) / t.center, (v.2.1 : ℚ) / t.center, (v.2.2 : ℚ) / t.center) := by
+  have hfix := decScaled_intVecToCoords t hwf v hsum
+  obtain ⟨hV, _, hc1, _⟩ := hwf
+  generalize intVecToCoords t v = p at hfix
+  obtain ⟨v1, v2, v3⟩ := v
+  obtain ⟨s, u⟩ := p
+  simp only at hfix
+  set c : ℚ := (t.center : ℚ) with hcdef
+  have hc0 : (0:ℚ) < c := by rw [hcdef]; exact_mod_cast (by omega : (0:Int) < t.center)
+  have hcne : c ≠ 0 := ne_of_gt hc0
+  -- the decoder's values in terms of a = s - c, b = u - c
+  set a : Int := s - t.center with ha
+  set b : Int := u - t.center with hb
+  have hy : ((s : ℚ) * (2 / ((t.maxV : Int) : ℚ)) - 1) = (a : ℚ) / c := by
+    rw [hV, ha]; push_cast; field_simp; ring
+  have hz : ((u : ℚ) * (2 / ((t.maxV : Int) : ℚ)) - 1) = (b : ℚ) / c := by
+    rw [hV, hb]; push_cast; field_simp; ring
+  unfold octaVecG
+  simp only [OctaDecOps.add, OctaDecOps.sub, OctaDecOps.mul, OctaDecOps.div, OctaDecOps.abs,
+    OctaDecOps.neg, OctaDecOps.ofInt, OctaDecOps.lt, OctaDecOps.zero, OctaDecOps.one,
+    OctaDecOps.two, decide_eq_true_eq]
+  rw [hy, hz]
+  have habs : ∀ k : Int, |(k : ℚ) / c| = ((iabs k : Int) : ℚ) / c := by
+    intro k; rw [abs_div, abs_of_pos hc0, iabs_cast]
+  have hx : 1 - |(a : ℚ) / c| - |(b : ℚ) / c| = ((t.center - iabs a - iabs b : Int) : ℚ) / c := by
+    rw [habs, habs]; push_cast; rw [← hcdef]; field_simp
+  rw [hx]
+  have hlt : ∀ k : Int, ((k : ℚ) / c < 0 ↔ k < 0) := by
+    intro k
+    rw [div_neg_iff]
+    constructor
+    · rintro (⟨_, h⟩ | ⟨h, _⟩)
+      · linarith
+      · exact_mod_cast h
+    · intro h; exact Or.inr ⟨by exact_mod_cast h, hc0⟩
+  have hneg : ∀ k : Int, -((k : ℚ) / c) = ((-k : Int) : ℚ) / c := by
+    intro k; push_cast; ring
+  simp only [hneg, hlt]
+  unfold decScaled at hfix
+  simp only [Prod.mk.injEq] at hfix
+  obtain ⟨f1, f2, f3⟩ := hfix
+  rw [← f1, ← f2, ← f3]
+  generalize t.center - iabs a - iabs b = x
+  by_cases h1 : -x < 0 <;> by_cases h2 : a < 0 <;> by_cases h3 : b < 0 <;>
+    simp only [h1, h2, h3, if_true, if_false, Prod.mk.injEq] <;> push_cast <;>
+    refine ⟨trivial, ?_, ?_⟩ <;> field_simp <;> ring
+
 /-! ### the real analysis step -/
 
 /-- `sin² θ ≤ 9/(2c²)` with `0 ≤ θ < π/2` and `c ≥ 3` gives `θ ≤ 3/c` -/
